@@ -59,6 +59,13 @@ Theorem C17_l001_fix_clears : forall t, l001_check (l001_fix t) = [].
 Proof. exact l001_fix_clears. Qed.
 Theorem C17_l002_fix_clears : forall t, l002_check (l002_fix t) = [].
 Proof. exact l002_fix_clears. Qed.
+Theorem C17_l007_fix_clears : forall t, i_l007_check (i_l007_fix t) = [].
+Proof. exact (l007_fix_clears letter digit upper keywords_tab up_plain up_letter up_idem). Qed.
+(* L010 reports byte columns: for the texts [decode] produces (well-formed characters) *)
+Theorem C17_decode_wf : forall s, wft (decode s).
+Proof. exact decode_wf. Qed.
+Theorem C17_l010_fix_clears : forall t, wft t -> l010_check (l010_fix t) = [].
+Proof. exact l010_fix_clears. Qed.
 Theorem C17_l003_fix_clears : forall t, i_l003_check (i_l003_fix t) = [].
 Proof. exact (fun t => l003_fix_clears_mx space sp_nodelim 1 t (le_n 1)). Qed.
 
@@ -114,6 +121,9 @@ Print Assumptions C17_format_idempotent.
 Print Assumptions C17_l001_fix_clears.
 Print Assumptions C17_l002_fix_clears.
 Print Assumptions C17_l003_fix_clears.
+Print Assumptions C17_l007_fix_clears.
+Print Assumptions C17_decode_wf.
+Print Assumptions C17_l010_fix_clears.
 Print Assumptions C17_l001_check_exact.
 Print Assumptions C17_l001_location.
 Print Assumptions C17_l002_check_exact.
